@@ -380,6 +380,14 @@ func vfC10Topic(name string) *TopicScoreParams {
 		p := vfC10Topic("full")
 		p.FirstMessageDeliveriesCap, p.MeshMessageDeliveriesCap = 1, 1
 		return p
+	case "lowmesh": // only the mesh-delivery cap goes down, to a value that is still above the first-delivery cap
+		p := vfC10Topic("full")
+		p.MeshMessageDeliveriesCap = 2.5
+		return p
+	case "lowfirst": // only the first-delivery cap goes down
+		p := vfC10Topic("full")
+		p.FirstMessageDeliveriesCap = 1
+		return p
 	}
 	// "skip:<bits>": SkipAtomicValidation with the parameter groups whose bit is 0 left at zero
 	var bits int
@@ -453,6 +461,7 @@ type vfC10Inst struct {
 	t0    time.Time
 	msgs  map[string]*Message
 	valid bool
+	extra []string // events offered in addition to the common alphabet (per start state)
 }
 
 var vfC10Peers = []string{"p", "q"}
@@ -485,7 +494,7 @@ func vfC10New(x *vfExec, pname string) *vfC10Inst {
 			}
 			return nil
 		}}
-	for i, l := range []string{"m1", "m2"} {
+	for i, l := range []string{"m1", "m2", "m3"} { // (m3 only occurs in start states)
 		topic := "t"
 		in.msgs[l] = &Message{Message: &pb.Message{From: []byte("author"), Seqno: []byte{byte(i + 1)}, Topic: &topic, Data: []byte(l)}}
 	}
@@ -510,6 +519,7 @@ func (in *vfC10Inst) Enabled() []string {
 		}
 	}
 	evs = append(evs, "graft:p:u")
+	evs = append(evs, in.extra...)
 	return evs
 }
 
@@ -772,6 +782,8 @@ var vfC10Seeds = map[string][]string{
 	// m1 has been in validation for longer than the delivery window (first seen 600 ms ago, not yet validated), both peers active in the mesh
 	"validating": {"conn:p", "conn:q", "graft:p:t", "graft:q:t", "adv:1000", "adv:100", "decay", "val:m1:p", "adv:600"},
 	// three delivery records queued for expiry, created at different times, all of them about to outlive the seen window
+	// p has three mesh deliveries and three first deliveries on its counters (both at their caps or above the lowered ones)
+	"counted": {"conn:p", "conn:q", "graft:p:t", "graft:q:t", "deliver:m1:p", "deliver:m2:p", "deliver:m3:p"},
 	"records": {"conn:p", "conn:q", "graft:p:t", "graft:q:t", "deliver:m2:p", "adv:100", "deliver:m1:p", "adv:100", "deliver:mu:p", "adv:1000"},
 }
 
@@ -797,6 +809,9 @@ func vfC10Cfg(r *vfRun, pname, seed string) *vfExploreCfg {
 				for _, ev := range vfC10Seeds[seed] {
 					in.Apply(ev, false)
 				}
+				if seed == "counted" {
+					in.extra = []string{"setparams:lowmesh", "setparams:lowfirst"}
+				}
 			}
 			return in
 		}}
@@ -808,7 +823,7 @@ func init() {
 			names := vfC10ParamNames(r.thorough)
 			r.res.Bounds["parameter_sets"] = len(names)
 			for _, pn := range names {
-				for _, seed := range []string{"", "mesh", "delivered", "retained", "validating", "records"} {
+				for _, seed := range []string{"", "mesh", "delivered", "retained", "validating", "records", "counted"} {
 					if seed != "" && pn != "full" && pn != "alt" && pn != "skip:31" && pn != "peer-skip" {
 						continue
 					}
